@@ -18,6 +18,15 @@ the model's own computation of needs / verdicts, decoded back to names):
     `needsD/needsS` are what the model computes for
     `Group([eq]).get_array_names()` (explicit arguments ∪ arrays of the
     precomputed closure).
+    every `st:` part ends with `:<wrappers>` (the `initialize`/`stage*` methods and
+    the stages with a `py_stage*`, `+`-separated), then
+    `integ:<Class>:<members of the generated class one_timestep uses>` and
+    `stagesok:<T|F>` follow the steppers.
+  `pointx <Scheme> <index> <extra>` → the same for the configuration with
+      caller-supplied `extra_steppers` (`withExtra`): `<extra>` is `-` (None / {}) or
+      `<Class>;<method>=<names,>;…@<array>+<array>…` — one stepper class (the
+      `d_*`/`s_*` names among the arguments of each `initialize`/`stage*` method)
+      given for the listed arrays, in the caller's dict order
   anything else → `bad-op`
 -/
 namespace PysphVerif.Driver.C12
@@ -41,10 +50,18 @@ def showEq (b : Body) (e : EqInst) : String :=
       | some l => if l.isEmpty then "_" else "+".intercalate (l.map (arrName b))
     s!"eq:{k.name}:{arrName b e.dest}:{srcs}:{nameList (needsD preTable k)}:{nameList (needsS preTable k)}:{nameList k.implicitD}:{nameList k.idxD}:{nameList k.idxS}"
 
-def showStepper (b : Body) (st : Nat × Nat) : String :=
-  match stepKinds[st.1]? with
+def showStepper (sk : List StepKind) (b : Body) (st : Nat × Nat) : String :=
+  match sk[st.1]? with
   | none => "st:!nokind"
-  | some k => s!"st:{k.name}:{arrName b st.2}:{nameList (stepNeeds k)}:{nameList k.implicitD}:{nameList k.idx}"
+  | some k =>
+    let wr := stepWrappers k
+    let wrs := if wr.isEmpty then "_" else "+".intercalate wr
+    s!"st:{k.name}:{arrName b st.2}:{nameList (stepNeeds k)}:{nameList k.implicitD}:{nameList k.idx}:{wrs}"
+
+def showInteg (b : Body) : String :=
+  match integKinds[b.integ]? with
+  | none => "integ:!nokind"
+  | some i => s!"integ:{i.name}:{if i.calls.isEmpty then "_" else "+".intercalate i.calls}"
 
 def showArr (a : Nat × Mask) : String :=
   s!"arr:{arrayNames.getD a.1 "?"}:{nameList a.2}"
@@ -55,7 +72,49 @@ def showStride (s : Nat × Nat) : String := s!"{propNames.getD s.1 "?"}*{s.2}"
 def showTypes (a : (Nat × Mask) × ArrTypes) : String :=
   s!"ty:{arrayNames.getD a.1.1 "?"}:int={nameList a.2.int};uint={nameList a.2.uint};long={nameList a.2.long};float={nameList a.2.float};strides={showList showStride a.2.strides}"
 
-def showPoint (g : SchemeGrid) (i : Nat) : String :=
+/-- the caller's `extra_steppers` on the wire, resolved against the table's
+names: the stepper kind and the arrays (indices into `b.arrays`) it is given for -/
+def maskOfNames? (ns : List String) : Option Mask :=
+  ns.foldl (fun acc n => match acc, propNames.idxOf? n with
+    | some m, some i => some (m ||| (1 <<< i))
+    | _, _ => none) (some 0)
+
+def parseMethod? (s : String) : Option (String × Mask) :=
+  match s.splitOn "=" with
+  | [m, ns] =>
+    if m.isEmpty then none else
+    (if ns == "_" then some 0 else maskOfNames? (ns.splitOn ",")).map (fun k => (m, k))
+  | _ => none
+
+def arrIndex? (b : Body) (n : String) : Option Nat :=
+  match arrayNames.idxOf? n with
+  | none => none
+  | some id => b.arrays.findIdx? (fun a => a.1 == id)
+
+def parseExtra? (b : Body) (s : String) : Option (Option StepKind × List Nat) :=
+  if s == "-" then some (none, []) else
+  match s.splitOn "@" with
+  | [kind, arrs] =>
+    match kind.splitOn ";" with
+    | cls :: ms =>
+      match ms.mapM parseMethod?, (arrs.splitOn "+").mapM (arrIndex? b) with
+      | some methods, some as =>
+        if cls.isEmpty then none else some (some ⟨cls, methods, 0, 0, []⟩, as)
+      | _, _ => none
+    | [] => none
+  | _ => none
+
+def showBody (sk : List StepKind) (labels : String) (b : Body) : String :=
+  let parts := [s!"labels:{labels}"] ++ b.arrays.map showArr ++
+    (b.arrays.zip b.types).map showTypes ++ b.eqs.map (showEq b) ++
+    b.steppers.map (showStepper sk b) ++
+    [showInteg b, s!"stagesok:{tf (stagesOk integKinds sk b)}",
+     s!"accepted:{tf (acceptsBody preTable eqKinds sk b)}",
+     s!"complete:{tf (checkBody preTable eqKinds sk b)}",
+     s!"typesok:{tf (typesOk eqKinds sk b)}"]
+  "|".intercalate parts
+
+def showPoint (g : SchemeGrid) (i : Nat) (extra : Option String) : String :=
   match g.bodyOf[i]? with
   | none => "bad-op"
   | some 0 => "rejected"
@@ -64,13 +123,14 @@ def showPoint (g : SchemeGrid) (i : Nat) : String :=
     | none => s!"nobody {c + 1}"
     | some b =>
       let labels := ",".intercalate ((labelsOf g i).map (fun p => p.1 ++ "=" ++ p.2))
-      let parts := [s!"labels:{labels}"] ++ b.arrays.map showArr ++
-        (b.arrays.zip b.types).map showTypes ++ b.eqs.map (showEq b) ++
-        b.steppers.map (showStepper b) ++
-        [s!"accepted:{tf (acceptsBody preTable eqKinds stepKinds b)}",
-         s!"complete:{tf (checkBody preTable eqKinds stepKinds b)}",
-         s!"typesok:{tf (typesOk eqKinds stepKinds b)}"]
-      "|".intercalate parts
+      match extra with
+      | none => showBody stepKinds labels b
+      | some x =>
+        match parseExtra? b x with
+        | none => "bad-op"
+        | some (none, _) => showBody stepKinds labels (withExtra b [])
+        | some (some uk, as) =>
+          showBody (stepKinds ++ [uk]) labels (withExtra b (as.map (fun a => (stepKinds.length, a))))
 
 def findGrid (n : String) : Option SchemeGrid := schemeTable.find? (fun g => g.name == n)
 
@@ -85,7 +145,11 @@ def handle (line : String) : String :=
       s!"size={gridSize g}|entries={g.bodyOf.length}|axes={axes}"
   | ["point", n, i] =>
     match findGrid n, parseNat? i with
-    | some g, some k => showPoint g k
+    | some g, some k => showPoint g k none
+    | _, _ => "bad-op"
+  | ["pointx", n, i, x] =>
+    match findGrid n, parseNat? i with
+    | some g, some k => showPoint g k (some x)
     | _, _ => "bad-op"
   | _ => "bad-op"
 
